@@ -67,4 +67,12 @@ Definition e_mechq (d : data) : data :=
       elist eZ (match m with Some s => queue s | None => [] end);
       ebool (queue_back q0 fq) ].
 
-Definition entries : list (Z * (data -> data)) := [ (1701, e_replay); (1702, e_xreplay); (1703, e_mechq) ].
+(* 1704: [q0; deque; resources of the executing run-functions] -> [deque + resources in use = the initial collection]
+   (asked when no job is between "submitted" and "started": nothing is bound out of sight) *)
+Definition e_conserved (d : data) : data :=
+  let q0 := dmap dZ (dnth 0 d) in
+  let dq := dmap dZ (dnth 1 d) in
+  let held := dmap (dmap dZ) (dnth 2 d) in
+  L [ ebool (queue_back q0 (dq ++ concat held)) ].
+
+Definition entries : list (Z * (data -> data)) := [ (1701, e_replay); (1702, e_xreplay); (1703, e_mechq); (1704, e_conserved) ].
